@@ -152,6 +152,67 @@ func ruleNodeLayer(c *Ctx) {
 						}
 					}
 					if newV != nil {
+						// payload: every array field the two layouts have (children, and keys where both
+						// have them) must be written in this block from the old node's field
+						newSt, _ := namedOf(newV.Type()).Underlying().(*types.Struct)
+						oldSt, _ := namedOf(xv.Type()).Underlying().(*types.Struct)
+						for fi := 0; newSt != nil && oldSt != nil && fi < newSt.NumFields(); fi++ {
+							fname := newSt.Field(fi).Name()
+							if newSt.Field(fi).Embedded() {
+								continue
+							}
+							if fname != "children" && fname != "keys" {
+								continue
+							}
+							hasOld := false
+							for fj := 0; fj < oldSt.NumFields(); fj++ {
+								if oldSt.Field(fj).Name() == fname {
+									hasOld = true
+								}
+							}
+							reads := func(e ast.Node, v *types.Var, field string) bool {
+								found := false
+								ast.Inspect(e, func(z ast.Node) bool {
+									if se, ok := z.(*ast.SelectorExpr); ok && se.Sel.Name == field && identVar(info, se.X) == v {
+										found = true
+									}
+									return true
+								})
+								return found
+							}
+							written := false
+							for _, earlier := range list[:i] {
+								ast.Inspect(earlier, func(z ast.Node) bool {
+									switch y := z.(type) {
+									case *ast.AssignStmt:
+										for li, l := range y.Lhs {
+											if reads(l, newV, fname) {
+												// the right-hand side (or the loop around it) must read the old node
+												src := ast.Node(earlier)
+												if len(y.Rhs) == len(y.Lhs) {
+													_ = li
+												}
+												if reads(src, xv, "children") || reads(src, xv, "keys") {
+													written = true
+												}
+											}
+										}
+									case *ast.CallExpr:
+										if isBuiltinCall(info, y, "copy") && len(y.Args) == 2 && reads(y.Args[0], newV, fname) && (reads(y.Args[1], xv, "children") || reads(y.Args[1], xv, "keys")) {
+											written = true
+										}
+									}
+									return true
+								})
+							}
+							key := fmt.Sprintf("%s %s→%s carries over %s", u.Name, xv.Name(), newV.Name(), fname)
+							_ = hasOld
+							if written {
+								c.r.ok("R21", key, m.pos(call.Pos()), newV.Name()+"."+fname+" is filled from the old node before it is released", "C11", "C01", "C10")
+							} else {
+								c.r.bad("R21", key, m.pos(call.Pos()), fmt.Sprintf("the node replacing %s never receives %s from it: the children (or their branch bytes) are lost when the node changes size class", xv.Name(), fname), "C11", "C01", "C10")
+							}
+						}
 						copied := map[string]bool{}
 						for _, earlier := range list[:i] {
 							as, ok := earlier.(*ast.AssignStmt)
